@@ -123,6 +123,12 @@ def _case(draw, tier="quick"):
                                        "delta": 1e-2})
     J = J * 10.0 ** draw(st.integers(-3, 3))
     max_all = 4 if tier == "quick" else 5
+    if name == "Krum" and fam not in ("many-rows",) and draw(st.sampled_from([True, False, False, False])):
+        # one finite row so far away that its squared distances overflow (inf scores / inf distances must not disturb
+        # the ranking of the others)
+        J = np.array(J, dtype=float)
+        J[int(rng.integers(0, m))] *= 1e25 if dtype == "float32" else 1e160
+        fam = fam + "+huge-row"
     if m <= max_all:
         perms = "all"
     else:
